@@ -93,33 +93,67 @@ theorem mem_edgeList {G : Graph} {V : List Nat} {u v : Nat} : (u, v) ∈ edgeLis
   · rintro ⟨h1, h2⟩; exact ⟨u, h1, v, h2, rfl, rfl⟩
 
 theorem gnew_eq_foldl (G : Graph) (V : List Nat) (vm : List (Nat × Nat)) :
-    gnew G V vm = (edgeList G V).foldl (fun gn e => addEdge vm gn e.1 e.2) (fun _ => []) := by
-  unfold gnew edgeList
-  generalize (fun _ => [] : Graph) = g0
+    gnewRows G V vm = (edgeList G V).foldl (fun rows e => addEdge vm rows e.1 e.2) [] := by
+  unfold gnewRows edgeList
+  generalize ([] : List (List Nat)) = g0
   induction V generalizing g0 with
   | nil => rfl
   | cons u V ih =>
     simp only [List.foldl_cons, List.flatMap_cons, List.foldl_append, List.foldl_map]
     exact ih _
 
+theorem rowOf_setRow : ∀ (rows : List (List Nat)) (i : Nat) (r : List Nat) (j : Nat),
+    rowOf (setRow rows i r) j = if j = i then r else rowOf rows j := by
+  intro rows
+  induction rows with
+  | nil =>
+    intro i
+    induction i with
+    | zero => intro r j; cases j <;> simp [setRow, rowOf]
+    | succ k ih =>
+      intro r j
+      cases j with
+      | zero => simp [setRow, rowOf]
+      | succ j =>
+        have := ih r j
+        simp only [rowOf, setRow, List.getD_cons_succ, Nat.add_right_cancel_iff] at this ⊢
+        rw [this]; simp
+  | cons x xs ih =>
+    intro i r j
+    cases i with
+    | zero => cases j <;> simp [setRow, rowOf]
+    | succ k =>
+      cases j with
+      | zero => simp [setRow, rowOf]
+      | succ j =>
+        have := ih k r j
+        simp only [rowOf, setRow, List.getD_cons_succ, Nat.add_right_cancel_iff] at this ⊢
+        exact this
+
 /-- `gn` holds exactly the pairs of different group indices of the edges in `S`, each once -/
 def GnSpec (vm : List (Nat × Nat)) (gn : Graph) (S : List (Nat × Nat)) : Prop :=
   (∀ i, (gn i).Nodup) ∧ ∀ i j, j ∈ gn i ↔ i ≠ j ∧ ∃ e ∈ S, vscc vm e.1 = i ∧ vscc vm e.2 = j
 
-theorem addEdge_pos (vm : List (Nat × Nat)) (gn : Graph) (u v : Nat)
-    (h : vscc vm u ≠ vscc vm v ∧ vscc vm v ∉ gn (vscc vm u)) :
-    addEdge vm gn u v = fun i => if i = vscc vm u then gn (vscc vm u) ++ [vscc vm v] else gn i := by
-  unfold addEdge; exact if_pos h
+theorem addEdge_pos (vm : List (Nat × Nat)) (rows : List (List Nat)) (u v : Nat)
+    (h : vscc vm u ≠ vscc vm v ∧ vscc vm v ∉ rowOf rows (vscc vm u)) :
+    rowOf (addEdge vm rows u v) = fun i => if i = vscc vm u then rowOf rows (vscc vm u) ++ [vscc vm v] else rowOf rows i := by
+  have : addEdge vm rows u v = setRow rows (vscc vm u) (rowOf rows (vscc vm u) ++ [vscc vm v]) := by
+    unfold addEdge; exact if_pos h
+  rw [this]
+  funext i
+  exact rowOf_setRow _ _ _ _
 
-theorem addEdge_neg (vm : List (Nat × Nat)) (gn : Graph) (u v : Nat)
-    (h : ¬ (vscc vm u ≠ vscc vm v ∧ vscc vm v ∉ gn (vscc vm u))) : addEdge vm gn u v = gn := by
+theorem addEdge_neg (vm : List (Nat × Nat)) (rows : List (List Nat)) (u v : Nat)
+    (h : ¬ (vscc vm u ≠ vscc vm v ∧ vscc vm v ∉ rowOf rows (vscc vm u))) : addEdge vm rows u v = rows := by
   unfold addEdge; exact if_neg h
 
-theorem addEdge_spec (vm : List (Nat × Nat)) (gn : Graph) (S : List (Nat × Nat)) (u v : Nat) (h : GnSpec vm gn S) :
-    GnSpec vm (addEdge vm gn u v) (S ++ [(u, v)]) := by
+theorem addEdge_spec (vm : List (Nat × Nat)) (rows : List (List Nat)) (S : List (Nat × Nat)) (u v : Nat)
+    (h : GnSpec vm (rowOf rows) S) : GnSpec vm (rowOf (addEdge vm rows u v)) (S ++ [(u, v)]) := by
   obtain ⟨hnd, hmem⟩ := h
-  by_cases hc : vscc vm u ≠ vscc vm v ∧ vscc vm v ∉ gn (vscc vm u)
-  · rw [addEdge_pos vm gn u v hc]
+  generalize hgn : rowOf rows = gn at hnd hmem
+  by_cases hc : vscc vm u ≠ vscc vm v ∧ vscc vm v ∉ rowOf rows (vscc vm u)
+  · rw [addEdge_pos vm rows u v hc, hgn]
+    rw [hgn] at hc
     obtain ⟨hne, hnot⟩ := hc
     refine ⟨?_, ?_⟩
     · intro i
@@ -147,7 +181,8 @@ theorem addEdge_spec (vm : List (Nat × Nat)) (gn : Graph) (S : List (Nat × Nat
         · rintro ⟨h1, e, he | rfl, h2, h3⟩
           · exact ⟨h1, e, he, h2, h3⟩
           · exact absurd h2.symm hi
-  · rw [addEdge_neg vm gn u v hc]
+  · rw [addEdge_neg vm rows u v hc, hgn]
+    rw [hgn] at hc
     refine ⟨hnd, ?_⟩
     intro i j
     rw [hmem]
@@ -165,22 +200,22 @@ theorem addEdge_spec (vm : List (Nat × Nat)) (gn : Graph) (S : List (Nat × Nat
           · exact absurd ⟨h1, hin⟩ hc
         exact ((hmem _ _).mp this).2
 
-theorem foldl_addEdge_spec (vm : List (Nat × Nat)) : ∀ (es : List (Nat × Nat)) (gn : Graph) (S : List (Nat × Nat)),
-    GnSpec vm gn S → GnSpec vm (es.foldl (fun gn e => addEdge vm gn e.1 e.2) gn) (S ++ es) := by
+theorem foldl_addEdge_spec (vm : List (Nat × Nat)) : ∀ (es : List (Nat × Nat)) (rows : List (List Nat)) (S : List (Nat × Nat)),
+    GnSpec vm (rowOf rows) S → GnSpec vm (rowOf (es.foldl (fun rows e => addEdge vm rows e.1 e.2) rows)) (S ++ es) := by
   intro es
   induction es with
-  | nil => intro gn S h; simpa using h
+  | nil => intro rows S h; simpa using h
   | cons e es ih =>
-    intro gn S h
+    intro rows S h
     simp only [List.foldl_cons]
-    have := ih _ _ (addEdge_spec vm gn S e.1 e.2 h)
+    have := ih _ _ (addEdge_spec vm rows S e.1 e.2 h)
     simpa [List.append_assoc] using this
 
 /-- **`G_new`**: `j ∈ G_new[i]` iff `i ≠ j` and some edge `u → v` of `G` has `v_SCC[u] = i`, `v_SCC[v] = j`; no duplicates -/
 theorem gnew_spec (G : Graph) (V : List Nat) (vm : List (Nat × Nat)) :
-    (∀ i, (gnew G V vm i).Nodup) ∧
-    ∀ i j, j ∈ gnew G V vm i ↔ i ≠ j ∧ ∃ u ∈ V, ∃ v ∈ G u, vscc vm u = i ∧ vscc vm v = j := by
-  have h0 : GnSpec vm (fun _ => []) [] := ⟨by simp, by simp⟩
+    (∀ i, (rowOf (gnewRows G V vm) i).Nodup) ∧
+    ∀ i j, j ∈ rowOf (gnewRows G V vm) i ↔ i ≠ j ∧ ∃ u ∈ V, ∃ v ∈ G u, vscc vm u = i ∧ vscc vm v = j := by
+  have h0 : GnSpec vm (rowOf []) [] := ⟨by simp [rowOf], by simp [rowOf]⟩
   have := foldl_addEdge_spec vm (edgeList G V) _ _ h0
   rw [← gnew_eq_foldl, List.nil_append] at this
   refine ⟨this.1, ?_⟩
